@@ -285,6 +285,9 @@ def run(ctx: Ctx):
 
     slot_families(ctx, "R01.i", only_family="STATE", floor=False, producers=lambda p: p.func.qualname in ("CodeGenerator.initial_state_values", "CodeGenerator._state_assignments", "CodeGenerator.rhs"))
 
+    ctx.rule("R01.j", "assembly: every expression is built from its own tree with the model-wide symbol table, printed by the backend printer and returned unmodified (no nan_to_num); the module contains imports, index/init functions, rhs", floor=8)
+    assembly(ctx, "R01.j")
+
     # ---- R01.g time aliases -------------------------------------------------------------------------------
     ctx.rule("R01.g", "`t` and `time` both denote the one time symbol, which is the formal argument t of the generated functions", floor=3)
     mo = sm.func("ode.py", "make_ode")
@@ -364,3 +367,48 @@ def check_where_nesting(ctx: Ctx, rule: str, f):
         calls = [x for x in ast.walk(f.node) if isinstance(x, ast.Call) and (dotted(x.func) or "") == "_print_Piecewise"]
         ok = ok and bool(calls) and [norm(a) for a in calls[0].args] == ["self", "expr"]
     ctx.check(ok, rule, key, "where(c1, e1, where(c2, e2, default))", f"numpy printer _print_Piecewise: {why}; branches would be paired with the wrong conditions or the default lost", f.where())
+
+
+def assembly(ctx: Ctx, rule: str):
+    """R01.j: every assignment's expression is built from its own tree with the model-wide symbol table and reaches rhs unmodified."""
+    sm = ctx.sm
+    rx = sm.func("ode.py", "resolve_expressions")
+    loops = [n for n in ast.walk(rx.node) if isinstance(n, ast.For)]
+    ok = len(loops) == 2 and norm(loops[0].iter) == rx.params[0] and norm(loops[1].iter) == f"{loops[0].target.id}.assignments" and not any(isinstance(n, (ast.If, ast.Continue, ast.Break)) for n in ast.walk(loops[0]))
+    app = [c for c in ast.walk(rx.node) if isinstance(c, ast.Call) and norm(c.func) == "assignments.append"]
+    ok = ok and bool(app) and norm(app[0].args[0]) == f"{loops[1].target.id}.resolve_expression({rx.params[1]})" if loops and len(loops) == 2 else False
+    comp = [c for c in ast.walk(rx.node) if isinstance(c, ast.Call) and norm(c.func) == "Component"]
+    okc = bool(comp) and {k.arg: norm(k.value) for k in comp[0].keywords} == {"name": "component.name", "states": "component.states", "parameters": "component.parameters", "assignments": "frozenset(assignments)"}
+    ctx.check(ok and okc, rule, rx.key("all-assignments"), "every assignment of every component is resolved with the model-wide symbols", "resolve_expressions does not resolve every assignment of every component (or rebuilds the component from something else)", rx.where())
+    mo = sm.func("ode.py", "make_ode")
+    calls = [c for c in ast.walk(mo.node) if isinstance(c, ast.Call) and norm(c.func) == "resolve_expressions"]
+    okm = bool(calls) and {k.arg: norm(k.value) for k in calls[0].keywords} == {"components": "components", "symbols": "symbols"}
+    ga = [n for n in ast.walk(mo.node) if isinstance(n, ast.Assign) and isinstance(n.value, ast.Call) and norm(n.value.func) == "gather_atoms"]
+    okm = okm and bool(ga) and [norm(e) for e in ga[0].targets[0].elts][2] == "symbols"
+    ctx.check(okm, rule, mo.key("symbol-table"), "symbols of all components (gather_atoms) are used to resolve", "make_ode does not resolve the expressions with the symbol table gathered from all components", mo.where())
+    for cls in ("Assignment", "StateDerivative"):
+        f = sm.func("atoms.py", f"{cls}.resolve_expression")
+        ex = [n for n in ast.walk(f.node) if isinstance(n, ast.Assign) and norm(n.targets[0]) == "expr"]
+        ret = [c for n in ast.walk(f.node) if isinstance(n, ast.Return) and isinstance(n.value, ast.Call) for c in [n.value]]
+        okr = bool(ex) and norm(ex[0].value) == f"self.value.resolve({f.params[1]})" and bool(ret) and norm(call_kw(ret[0], "expr")) == "expr" and norm(call_kw(ret[0], "name")) == "self.name" and norm(call_kw(ret[0], "symbol")) == "self.symbol"
+        ctx.check(okr, rule, f.key("own-tree"), "expr = own tree resolved; name and symbol kept", f"{cls}.resolve_expression does not build the new atom from its own resolved tree", f.where())
+    er = sm.func("atoms.py", "Expression.resolve")
+    rets = [norm(n.value) for n in ast.walk(er.node) if isinstance(n, ast.Return)]
+    ctx.check(rets == ["build_expression(self.tree, symbols=symbols)"], rule, er.key(), "build_expression(self.tree, symbols)", f"Expression.resolve returns {rets}", er.where())
+    T = tm.TemplateModel(sm)
+    mt = T.func("templates/python.py", "method")
+    a = mt.node.args
+    dflt = dict(zip([x.arg for x in a.args][len(a.args) - len(a.defaults):], a.defaults))
+    okn = "nan_to_num" not in dflt or (isinstance(dflt["nan_to_num"], ast.Constant) and dflt["nan_to_num"].value is False)
+    passed = [f.qualname for f in sm.funcs_in("codegen/base.py") for c in ast.walk(f.node) if isinstance(c, ast.Call) and call_kw(c, "nan_to_num") is not None]
+    ctx.check(okn and not passed, rule, mt.key("nan_to_num"), "results are returned as computed (no nan_to_num)", f"the python method template replaces NaN results by 0 (default {norm(dflt.get('nan_to_num')) if 'nan_to_num' in dflt else None}, passed by {passed})", mt.where())
+    rets = [fstring_skeleton(n.value.args[0]) for n in ast.walk(mt.node) if isinstance(n, ast.Assign) and norm(n.targets[0]) == "indent_return" and isinstance(n.value, ast.Call) and n.value.args]
+    ctx.check("return {return_name}" in rets, rule, mt.key("return"), "return <result array>", f"python method template returns {rets}", mt.where())
+    dp = sm.func("codegen/base.py", "CodeGenerator._doprint")
+    rets = [norm(n.value) for n in ast.walk(dp.node) if isinstance(n, ast.Return)]
+    okd = "self.printer.doprint(Assignment(lhs, rhs))" in rets and any(fstring_skeleton(n.value) == "{self.variable_prefix}{self.printer.doprint(Assignment(lhs, rhs))}" for n in ast.walk(dp.node) if isinstance(n, ast.Return))
+    ctx.check(okd, rule, dp.key(), "lhs = rhs printed by the backend printer", f"CodeGenerator._doprint returns {rets}", dp.where())
+    gc = sm.func("cli/gotran2py.py", "get_code")
+    lst = [n for n in ast.walk(gc.node) if isinstance(n, ast.List) and any(norm(e) == "codegen.rhs()" for e in n.elts)]
+    okg = bool(lst) and norm(lst[0].elts[0]) == "codegen.imports()" and {"codegen.state_index()", "codegen.parameter_index()", "codegen.initial_state_values()", "codegen.initial_parameter_values()", "codegen.rhs()", "codegen.monitor_values()"} <= {norm(e) for e in lst[0].elts}
+    ctx.check(okg, rule, gc.key("module-parts"), "imports first; index, init, rhs and monitor functions are all emitted", "gotran2py.get_code no longer assembles imports, index/init functions, rhs and monitor_values", gc.where())
